@@ -21,6 +21,20 @@ func (e *Engine) loopHead(st *State, fr *Frame, li *loopInfo) (stop bool) {
 		panic(unsupported(fmt.Sprintf("loop %d of %s has no invariant", li.ord, fr.fn)))
 	}
 	lc := fr.loops[li.head]
+	if ls.Unroll > 0 {
+		// complete unrolling with an unwinding assertion (not a bound: the assertion must be proved)
+		if lc == nil || !li.blocks[fr.prev] {
+			lc = &loopCtx{ord: li.ord}
+		} else {
+			lc = &loopCtx{ord: li.ord, count: lc.count + 1}
+		}
+		fr.loops[li.head] = lc
+		if lc.count > ls.Unroll {
+			e.oblige(st, "unwind", fmt.Sprintf("loop%d", li.ord), -1, False, fmt.Sprintf("loop runs at most %d iterations (unwinding assertion)", ls.Unroll), li.pos)
+			return true
+		}
+		return false
+	}
 	back := lc != nil && li.blocks[fr.prev]
 	mk := func(iter *Term) *specCtx {
 		return &specCtx{e: e, st: st, env: map[string]Val{}, oldEnv: e.entryEnv(st.frames[0]), heaps: st.heaps, oldHeaps: st.old,
